@@ -1,0 +1,16 @@
+//go:build verif
+
+package heap
+
+// VerifSnapshot returns the heap's slice order (name, priority) and its name index.
+func (h *Heap) VerifSnapshot() (names []string, priorities []int, index map[string]int) {
+	index = make(map[string]int, len(h.pq.names))
+	for _, it := range h.pq.queue {
+		names = append(names, it.name)
+		priorities = append(priorities, it.priority)
+	}
+	for k, v := range h.pq.names {
+		index[k] = v
+	}
+	return
+}
